@@ -17,7 +17,7 @@ NoFn == <<>>
 GetOr(f, s, d) == IF s \in DOMAIN f THEN f[s] ELSE d
 PutF(f, s, v) == [x \in DOMAIN f \cup {s} |-> IF x = s THEN v ELSE f[x]]
 
-Init == /\ l = 1 /\ scn = "" /\ cfg = [rates |-> <<>>, tps |-> 1, cap |-> 1, level |-> "http", qualified |-> TRUE]
+Init == /\ l = 1 /\ scn = "" /\ cfg = [rates |-> <<>>, tps |-> 1, cap |-> 1, level |-> "http", qualified |-> TRUE, approx |-> FALSE]
         /\ now = 0 /\ tracked = NoFn /\ pot = NoFn /\ potT = NoFn /\ seen = NoFn /\ tied = FALSE
         /\ bad = <<>> /\ drift = <<>> /\ nev = 0
 
@@ -68,7 +68,7 @@ Req ==
      /\ seen' = PutF(seen, s, now)
      /\ tracked' = m.tracked
      /\ tied' = (tied \/ tie)        \* several entries equally near to expiry: the model cannot know which one the heap gives up
-     /\ drift' = IF cfg.level = "http" /\ ~tied /\ ~tie /\ (m.out # Ev.out \/ (m.out = "limit" /\ m.delay # Ev.delay))
+     /\ drift' = IF cfg.level = "http" /\ ~tied /\ ~tie /\ ~cfg.approx /\ (m.out # Ev.out \/ (m.out = "limit" /\ m.delay # Ev.delay))
                    THEN Report(drift, scn, l, "tl.consumeRates") ELSE drift
   /\ UNCHANGED <<scn, cfg, now>> /\ nev' = nev + 1
 
